@@ -61,52 +61,95 @@ func c10Inner(frames []string) string {
 	return "?"
 }
 
+type c10Block struct {
+	text string
+	acc  []c10Access
+}
+
+func c10ParseBlock(blk string) c10Block {
+	b := c10Block{text: blk}
+	var cur *[]string
+	for _, line := range strings.Split(blk, "\n") {
+		if line == "" {
+			continue
+		}
+		if !strings.HasPrefix(line, " ") {
+			cur = nil
+			isAcc := strings.Contains(line, "ead at") || strings.Contains(line, "rite at")
+			if m := c10GorRe.FindStringSubmatch(line); m != nil && isAcc {
+				b.acc = append(b.acc, c10Access{gor: m[1]})
+				cur = &b.acc[len(b.acc)-1].frames
+			} else if isAcc && strings.Contains(line, "by main goroutine") {
+				b.acc = append(b.acc, c10Access{gor: "main"})
+				cur = &b.acc[len(b.acc)-1].frames
+			}
+			continue
+		}
+		if cur != nil {
+			if m := c10FrameRe.FindStringSubmatch(line); m != nil {
+				*cur = append(*cur, m[1])
+			}
+		}
+	}
+	return b
+}
+
+func c10HasFrame(frames []string, sub string) bool {
+	for _, f := range frames {
+		if strings.Contains(f, sub) {
+			return true
+		}
+	}
+	return false
+}
+
 // c10ParseRaces returns the set of "A+B" attributions (sorted pair of handler methods) with one sample site each.
+// Attribution of one access: the outermost langserver.(*LspServer).X frame of its stack; else of the stack that
+// created its goroutine (worker goroutines of a handler); else the handler seen in any other report for the same
+// goroutine (jrpc2 marshals the handler's result in the handler's goroutine AFTER the handler returned: results
+// that alias shared memory are read there); else "?marshal" / "?<innermost function>".
 func c10ParseRaces(log string) map[string]string {
 	out := map[string]string{}
+	var blocks []c10Block
+	gorName := map[string]string{}
 	for _, blk := range strings.Split(log, "==================") {
 		if !strings.Contains(blk, "WARNING: DATA RACE") {
 			continue
 		}
-		var acc []c10Access
-		var cur *[]string
-		for _, line := range strings.Split(blk, "\n") {
-			if line == "" {
-				continue
+		b := c10ParseBlock(blk)
+		blocks = append(blocks, b)
+		for _, a := range b.acc {
+			n := c10Outer(a.frames)
+			if n == "" {
+				n = c10Outer(c10CreatedFrames(blk, a.gor))
 			}
-			if !strings.HasPrefix(line, " ") {
-				cur = nil
-				isAcc := strings.Contains(line, "ead at") || strings.Contains(line, "rite at")
-				if m := c10GorRe.FindStringSubmatch(line); m != nil && isAcc {
-					acc = append(acc, c10Access{gor: m[1]})
-					cur = &acc[len(acc)-1].frames
-				} else if isAcc && strings.Contains(line, "by main goroutine") {
-					acc = append(acc, c10Access{gor: "main"})
-					cur = &acc[len(acc)-1].frames
-				}
-				continue
-			}
-			if cur != nil {
-				if m := c10FrameRe.FindStringSubmatch(line); m != nil {
-					*cur = append(*cur, m[1])
-				}
+			if n != "" {
+				gorName[a.gor] = n
 			}
 		}
+	}
+	for _, b := range blocks {
 		names := []string{}
 		sites := []string{}
-		for i := range acc {
+		for i := range b.acc {
 			if i >= 2 {
 				break
 			}
-			n := c10Outer(acc[i].frames)
+			n := c10Outer(b.acc[i].frames)
 			if n == "" {
-				n = c10Outer(c10CreatedFrames(blk, acc[i].gor))
+				n = c10Outer(c10CreatedFrames(b.text, b.acc[i].gor))
 			}
 			if n == "" {
-				n = "?" + c10Inner(acc[i].frames)
+				n = gorName[b.acc[i].gor]
+			}
+			if n == "" && c10HasFrame(b.acc[i].frames, "jrpc2.(*Server).invoke") && c10HasFrame(b.acc[i].frames, "json.Marshal") {
+				n = "?marshal"
+			}
+			if n == "" {
+				n = "?" + c10Inner(b.acc[i].frames)
 			}
 			names = append(names, n)
-			sites = append(sites, c10Inner(acc[i].frames))
+			sites = append(sites, c10Inner(b.acc[i].frames))
 		}
 		for len(names) < 2 {
 			names = append(names, "?")
@@ -145,12 +188,16 @@ func c10CreatedFrames(blk, gor string) []string {
 func c10Child(line string) string {
 	f := strings.Fields(line)
 	mode := f[0]
-	dir, err := ioutil.TempDir("", "c10ws")
-	if err != nil {
-		return "SETUP-ERROR " + err.Error()
+	dir := os.Getenv("C10_WS") // created (and removed, also after a crash) by the parent
+	if dir == "" {
+		d, err := ioutil.TempDir("", "c10ws")
+		if err != nil {
+			return "SETUP-ERROR " + err.Error()
+		}
+		dir = d
+		defer os.RemoveAll(dir)
 	}
 	dir, _ = filepath.EvalSymlinks(dir)
-	defer os.RemoveAll(dir)
 	switch mode {
 	case "race":
 		s := c10ParseSched(f[1:])
@@ -176,8 +223,24 @@ func c10Spawn(line string, timeout time.Duration) (stdout string, stderr string,
 		return "", "", nil, e
 	}
 	defer os.RemoveAll(logdir)
-	cmd := exec.Command(os.Args[0], "c10.child")
-	cmd.Env = append(os.Environ(), "GORACE=halt_on_error=0 exitcode=0 history_size=4 log_path="+filepath.Join(logdir, "race"))
+	wsdir, e := ioutil.TempDir("", "c10ws")
+	if e != nil {
+		return "", "", nil, e
+	}
+	defer os.RemoveAll(wsdir)
+	exe := os.Args[0]
+	if !c10RaceBuild {
+		// bin/replay drives harness/bin/lhimpl: the C10 legs need the race detector, use the sibling binary
+		if abs, e := filepath.Abs(exe); e == nil {
+			sib := filepath.Join(filepath.Dir(abs), "lhimpl_race")
+			if _, e := os.Stat(sib); e == nil {
+				exe = sib
+			}
+		}
+	}
+	cmd := exec.Command(exe, "c10.child")
+	cmd.Env = append(os.Environ(), "C10_WS="+wsdir,
+		"GORACE=halt_on_error=0 exitcode=0 history_size=4 log_path="+filepath.Join(logdir, "race"))
 	cmd.Stdin = strings.NewReader(line + "\n")
 	var so, se bytes.Buffer
 	cmd.Stdout, cmd.Stderr = &so, &se
